@@ -12,6 +12,7 @@ import (
 	"fmt"
 	"hash"
 	"io"
+	"math"
 	"sort"
 	"strconv"
 	"unicode"
@@ -267,7 +268,11 @@ func ByteSlice(ctx context.Context, args ...object.Object) object.Object {
 		for i, item := range items {
 			switch item := item.(type) {
 			case *object.Int:
-				bytes[i] = byte(item.Value())
+				val := item.Value()
+				if val < 0 || val > math.MaxUint8 {
+					return object.Errorf("value error: byte_slice() list item out of range for a byte (%d given)", val)
+				}
+				bytes[i] = byte(val)
 			case *object.Byte:
 				bytes[i] = item.Value()
 			default:
@@ -626,13 +631,23 @@ func Byte(ctx context.Context, args ...object.Object) object.Object {
 	}
 	switch obj := args[0].(type) {
 	case *object.Int:
-		return object.NewByte(byte(obj.Value()))
+		val := obj.Value()
+		if val < 0 || val > math.MaxUint8 {
+			return object.Errorf("value error: byte() argument out of range for a byte (%d given)", val)
+		}
+		return object.NewByte(byte(val))
 	case *object.Byte:
 		return object.NewByte(obj.Value())
 	case *object.Float:
-		return object.NewByte(byte(obj.Value()))
+		// The fraction is dropped, like int() does; what is left has to be
+		// a byte (a NaN fails both comparisons)
+		val := obj.Value()
+		if !(val > -1 && val < math.MaxUint8+1) {
+			return object.Errorf("value error: byte() argument out of range for a byte (%v given)", val)
+		}
+		return object.NewByte(byte(val))
 	case *object.String:
-		if i, err := strconv.ParseInt(obj.Value(), 0, 8); err == nil {
+		if i, err := strconv.ParseUint(obj.Value(), 0, 8); err == nil {
 			return object.NewByte(byte(i))
 		}
 		return object.Errorf("value error: invalid literal for byte(): %q", obj.Value())
